@@ -12,7 +12,7 @@ World (JSON):
 from hypothesis import strategies as st
 
 INDEX_NAMES = ["i0", "i1", "i2", "i3", "i4", "i5"]
-TDIM = {"interval": 1, "triangle": 2, "tetrahedron": 3}
+TDIM = {"interval": 1, "triangle": 2, "tetrahedron": 3, "quadrilateral": 2, "hexahedron": 3}
 
 MATH1 = ["sqrt", "exp", "ln", "cos", "sin", "tan", "cosh", "sinh", "tanh", "acos", "asin", "atan", "erf"]
 GEO_SCALAR_CELL = ["CellVolume", "Circumradius", "CellDiameter", "MinCellEdgeLength", "MaxCellEdgeLength"]
